@@ -63,6 +63,14 @@ type SpecFn struct {
 	Src    string
 }
 
+// FoldDecl: a list-valued recursive spec function over a slice, given by its step.
+type FoldDecl struct {
+	Name, Pkg string
+	Params    []QVar // first parameter is the slice
+	Acc, Elem string
+	Step      *SExpr
+}
+
 type GhostField struct {
 	Pkg, Owner, Name, Type string
 }
@@ -74,11 +82,12 @@ type Specs struct {
 	Nullable map[string]bool // "pkgpath.Type.field"
 	UFs      map[string]*UFDecl
 	GhostVars map[string]string // global ghost variables: name -> type
+	Folds     map[string]*FoldDecl
 	Files    []string
 }
 
 func newSpecs() *Specs {
-	return &Specs{Funcs: map[string]*FuncSpec{}, SpecFns: map[string]*SpecFn{}, Ghosts: map[string]*GhostField{}, Nullable: map[string]bool{}, UFs: map[string]*UFDecl{}, GhostVars: map[string]string{}}
+	return &Specs{Funcs: map[string]*FuncSpec{}, SpecFns: map[string]*SpecFn{}, Ghosts: map[string]*GhostField{}, Nullable: map[string]bool{}, UFs: map[string]*UFDecl{}, GhostVars: map[string]string{}, Folds: map[string]*FoldDecl{}}
 }
 
 var allSafetyKinds = []string{"bounds", "nil", "assert", "div0", "shift", "makelen", "panic", "mapnil"}
@@ -143,6 +152,38 @@ func (s *Specs) loadSpecFile(path, pkgPath string, assumed bool) error {
 			}
 			sf.Pkg = pkgPath
 			s.SpecFns[pkgPath+"."+sf.Name] = sf
+			cur = nil
+		case "fold":
+			// fold name(a []T, p1 T1, ...) :: step(acc, x) = expr
+			i := strings.Index(rest, "::")
+			if i < 0 {
+				return fmt.Errorf("%s: fold name(params) :: step(acc, x) = expr", where)
+			}
+			head := strings.TrimSpace(rest[:i])
+			tail := strings.TrimSpace(rest[i+2:])
+			lp, rp := strings.Index(head, "("), strings.LastIndex(head, ")")
+			eq := findDefEq(tail)
+			if lp < 0 || rp < lp || eq < 0 {
+				return fmt.Errorf("%s: bad fold declaration", where)
+			}
+			fd := &FoldDecl{Name: strings.TrimSpace(head[:lp]), Pkg: pkgPath}
+			for _, pp := range splitTop(head[lp+1:rp], ',') {
+				n, t := splitWord(strings.TrimSpace(pp))
+				fd.Params = append(fd.Params, QVar{n, t})
+			}
+			sh := strings.TrimSpace(tail[:eq])
+			slp, srp := strings.Index(sh, "("), strings.LastIndex(sh, ")")
+			names := splitTop(sh[slp+1:srp], ',')
+			if len(names) != 2 {
+				return fmt.Errorf("%s: step(acc, x) expected", where)
+			}
+			fd.Acc, fd.Elem = strings.TrimSpace(names[0]), strings.TrimSpace(names[1])
+			body, err := parseSpecExpr(strings.TrimSpace(tail[eq+1:]))
+			if err != nil {
+				return fmt.Errorf("%s: %v", where, err)
+			}
+			fd.Step = body
+			s.Folds[fd.Name] = fd
 			cur = nil
 		case "ghost":
 			// ghost field Owner.name type
